@@ -154,6 +154,23 @@ theorem declNames_emit (c : Cfg) (i : Ids) (tl ul : Bool) (ml : Option (List Nam
 
 /-! ### fetch expressions -/
 
+/-- the regenerated fact: `Context.get` / `Context.__getitem__` test key membership, so a key bound to `None` is bound -/
+theorem boundIn_get (m : Dict) (x : Name) : boundIn Generated.Names.ctxGetByMembership m x = m x := by
+  have : Generated.Names.ctxGetByMembership = true := by decide
+  rw [this]
+  unfold boundIn
+  cases m x with
+  | none => rfl
+  | some v => cases v <;> rfl
+
+theorem boundIn_getitem (m : Dict) (x : Name) : boundIn Generated.Names.ctxGetItemByMembership m x = m x := by
+  have : Generated.Names.ctxGetItemByMembership = true := by decide
+  rw [this]
+  unfold boundIn
+  cases m x with
+  | none => rfl
+  | some v => cases v <;> rfl
+
 /-- run-time well-formedness: `_import_ns` is empty without `import=` namespaces and never holds `UNDEFINED` -/
 structure RTOK (c : Cfg) (rt : RT) : Prop where
   noImports : c.hasNsImports = false → ∀ x, rt.importNs x = none
@@ -165,6 +182,7 @@ theorem fetchExpr_refines {c : Cfg} {rt : RT} (h : RTOK c rt) (x : Name) :
       | .nameError => SVal.strictError) = Spec.fetch c.strict rt x := by
   have hu := h.importDefined x
   unfold fetchExpr Spec.fetch ctxGetItem ctxGet dget
+  simp only [boundIn_get, boundIn_getitem]
   by_cases hi : c.hasNsImports = true
   · cases hs : c.strict <;> cases h1 : rt.importNs x <;> cases h2 : rt.data x <;> cases h3 : rt.builtins x <;>
       simp_all
@@ -176,6 +194,7 @@ theorem fetchExpr_nameError_iff {c : Cfg} {rt : RT} (h : RTOK c rt) (x : Name) :
       c.strict = true ∧ rt.importNs x = none ∧ rt.data x = none ∧ rt.builtins x = none := by
   have hu := h.importDefined x
   unfold fetchExpr ctxGetItem ctxGet dget
+  simp only [boundIn_get, boundIn_getitem]
   by_cases hi : c.hasNsImports = true
   · cases hs : c.strict <;> cases h1 : rt.importNs x <;> cases h2 : rt.data x <;> cases h3 : rt.builtins x <;>
       simp_all
